@@ -35,11 +35,34 @@ Encoding (list of ints): runner events as in harness/runlib.py / Runner.enc_even
 Markers used only by the independent oracle / statistics (stripped before comparison): [50 c] body of creator c
 started, [51 k] action of task k started, [52 c n] creator c evaluated while n of its placeholder names had an ExecNode.
 
+Kind `calc` (gen_calc): created tasks that declare calc_dep (plus task_dep / setup) -- the task that takes over the node of
+its placeholder (creator returning ONE dict, plain task named like the creator / an entry of `creates`, sub-task selected by
+name), sub-tasks and differently named tasks; calc_dep providers are static tasks or tasks of the same creator whose action
+returns {'task_dep', 'file_dep', 'calc_dep'} (the fake dependency manager hands the same dict out as saved values of an
+up-to-date provider).  Model side: t_calc_dep / t_calc_new_task / t_calc_new_impl / t_calc_new_calc of the dtask records
+(Delayed.nd_reset, process_calc), calc_rank = hash slot of the provider names (iteration order of the small calc_dep sets).
+
+Kind `subrx` (gen_subrx): sub-tasks of a delayed task selected by name (`d0:1`) together with words resolved through target_regex /
+--auto-delayed-regex (existing targets, targets nobody produces), both orders: the input family of the defect repaired in /repo
+01f48fb (the by-name placeholder was taken for a task-creator by the regex loop).  Model: Delayed.filter_one with ss_sub
+(`subtask_placeholders`), variant SelHead; the code before the repair is SelLegacy (C15_MODEL_SELVER=SelLegacy for experiments).
+
 Independent oracle (no model): O1 a creator body starts at most once per run (every runner incl. real threads, DoitMain,
 and `python -m doit run -n 2 -P thread|process` on the fixed dodo family e2e_family); O1b a placeholder name is never
 reported before its creator ran; O2 only after a final report of the `executed` task; O3 tasks run once, after their
-dependencies; O4 unknown words are errors; O5/O5b command-line targets: the producer is processed, nothing outside the
-closure; O6 every created task whose placeholder name was reported is reported exactly once, as its own behaviour demands.
+dependencies (task_dep, setup, calc_dep); O4 unknown words are errors; O5/O5b command-line targets: the producer is processed, nothing outside the
+closure; O6 every created task whose placeholder name was reported is reported exactly once, as its own behaviour demands;
+O7 (kind calc; twin_oracle) differential against the identically defined STATIC task set (same creator bodies without create_after,
+the trigger as an extra task_dep; same selection, flags and fake dependency manager; serial Runner): a task is never selected
+before the calc_dep tasks it declares were processed; when both runs exit 0 the same tasks get the same reports and end with
+the same task_dep / calc_dep / file_dep (computed values merged), selected only after all of them; failure-free behaviours:
+same exit status (unless the delayed selection itself was rejected, [40]); T5 a word the static twin rejects never ends with exit
+status 0.  R1/R2 (every kind, shape `subtask-placeholder-regex` when a by-name sub-task word and a regex-resolved word are both
+selected, else `keyerror-escaped` / `creator-evaluated-for-subtask-name`): no KeyError escapes run_all; generate_tasks is never called
+with a `basename:sub` name as basename.  e2e_subrx_family: `doit run --auto-delayed-regex c:1 nothing.txt` (exit 3, invalid-parameter
+error, nothing but c:1 executed, no traceback), `... c:1 two.txt` / `two.txt c:1` / `c:2 c:1 one.txt` (exit 0, exactly c:1 and c:2
+executed) under the serial, thread and process runners.  e2e_calc_family: the same comparison through `python -m doit run [-n 2 -P thread|process]` with the real
+dependency manager over three invocations (first run, nothing changed, the computed file_dep modified).
 """
 import io, json, os, re, sys, threading
 import common
@@ -54,6 +77,8 @@ FINAL = (2, 3, 4, 6)
 SCRIPT_MODEL = os.environ.get('C15_NO_SCRIPT_MODEL') is None
 # which variant of Model/Delayed.v the runs are compared with (VOwn = the seeded change C15b; only for experiments)
 MODEL_VARIANT = os.environ.get('C15_MODEL_VARIANT', 'VHead')
+# which _filter_tasks of Model/Delayed.v: SelHead = repair 01f48fb (by-name sub-task placeholders skipped by the regex loop), SelLegacy = before
+MODEL_SELVER = os.environ.get('C15_MODEL_SELVER', 'SelHead')
 
 
 # ------------------------------------------------------------------------------------------ generation
@@ -69,6 +94,10 @@ def gen_case(rng, kind=None):
     """kind: None (random) | 'k3' | 'creates' | 'regex' | 'auto' | 'unknown' | 'multi' (see gen_multi)"""
     if kind == 'multi':
         return gen_multi(rng)
+    if kind == 'calc':
+        return gen_calc(rng)
+    if kind == 'subrx':
+        return gen_subrx(rng)
     calm = rng.random() < 0.45
     # two command-line targets produced by the same creator, failure-free behaviours
     two = kind in ('regex', 'auto') and rng.random() < 0.4
@@ -280,6 +309,224 @@ def gen_multi(rng):
                 always=rng.random() < 0.1, kind='multi')
 
 
+# names of calc_dep providers: pairwise distinct slots in the 8-slot table of a small Python set, so that every set of them
+# iterates in ascending slot order (PYTHONHASHSEED is fixed by ./check); that order is the model's calc_rank oracle
+def _slot(nm):
+    return hash(nm) & 7
+
+
+def provider_names():
+    """(static provider names, created provider name per creator id)"""
+    used, stat, made = set(), [], {}
+    i = 0
+    while len(stat) < 2:
+        nm = 'k%d' % i; i += 1
+        if _slot(nm) not in used:
+            used.add(_slot(nm)); stat.append(nm)
+    for j in range(2):
+        i = 0
+        while j not in made:
+            nm = 'x%d_k%d' % (j, i); i += 1
+            if _slot(nm) not in used:
+                used.add(_slot(nm)); made[j] = nm
+    return stat, made
+
+
+def set_order_ok(names):
+    import itertools
+    for k in range(2, len(names) + 1):
+        for sub in itertools.combinations(names, k):
+            want = sorted(sub, key=_slot)
+            s = set(sub)
+            if list(s) != want or list(s.copy()) != want:
+                return False
+    return True
+
+
+def gen_calc(rng):
+    """created tasks that declare calc_dep (and task_dep / setup): a calc_dep provider is a task whose action returns
+    {'task_dep': [...], 'file_dep': [...], 'calc_dep': [...]} (static task k*, or a task x<j>_k* made by the same creator).
+    Consumers: the task that takes over the placeholder's node (creator returns ONE dict / yields a plain task named like
+    the placeholder / like an entry of `creates`), sub-tasks (also selected by name: `d0:1` placeholder), differently named
+    tasks; static consumers as the baseline.  Every placeholder name is yielded, so that the identically defined static
+    task set (twin) exists: case['twin'] = True"""
+    calm = rng.random() < 0.7
+    stat_prov, made_prov = provider_names()
+    ns = rng.choice([2, 2, 3])
+    snames = ['s%d' % i for i in range(ns)]
+    provs = stat_prov[:rng.choice([1, 1, 2])]
+    nd = rng.choice([1, 1, 1, 2])
+    shared = rng.random() < 0.3            # s0 has placeholder names as task_dep
+    creators = []
+    for j in range(nd):
+        r = rng.random()
+        creates = None if r < 0.6 else (['c%da' % j] if r < 0.8 else ['c%da' % j, 'c%db' % j])
+        creators.append(dict(fname='d%d' % j, cid=j, creates=creates))
+    placeholders = {c['fname']: (c['creates'] or [c['fname']]) for c in creators}
+    all_ph = [p for c in creators for p in placeholders[c['fname']]]
+    low = snames[1:]                       # what created tasks / computed values may depend on (never s0: no cycles)
+    statics = []
+    for i, nm in enumerate(snames):
+        later = snames[i + 1:]
+        td = [x for x in rng.sample(later, min(len(later), rng.randrange(0, 3))) if rng.random() < 0.6]
+        if i == 0 and shared:
+            td = td + rng.sample(all_ph, rng.choice([1, min(2, len(all_ph))]))
+        statics.append(dict(name=nm, task_dep=td, setup=[x for x in later if rng.random() < 0.1][:1], file_dep=[],
+                            targets=['f_%s' % nm] if rng.random() < 0.7 else [], beh=gen_beh(rng, calm),
+                            calc_dep=[rng.choice(provs)] if (i == 0 and rng.random() < 0.25) else []))
+    stargets = [t for s in statics for t in s['targets']]
+    low_targets = [t for t in stargets if t != 'f_s0']
+
+    def gen_values(k, more_calc):
+        v = dict(task_dep=[x for x in low if rng.random() < 0.4][:2],
+                 file_dep=[t for t in low_targets if rng.random() < 0.4][:2] + (['plain_%s.txt' % k] if rng.random() < 0.6 else []),
+                 calc_dep=[x for x in more_calc if rng.random() < 0.3][:1])
+        if not (v['task_dep'] or v['file_dep'] or v['calc_dep']):
+            v['file_dep'] = ['plain_%s.txt' % k]
+        return v
+    for i, k in enumerate(provs):
+        beh = gen_beh(rng, calm or rng.random() < 0.5)
+        statics.append(dict(name=k, task_dep=[x for x in low if rng.random() < 0.2][:1], setup=[], file_dep=[], targets=[],
+                            beh=beh, calc_dep=[], values=gen_values(k, provs[i + 1:])))
+    for j, c in enumerate(creators):
+        fname = c['fname']; phs = placeholders[fname]
+        pool = low + provs + [p for cc in creators[:j] for p in placeholders[cc['fname']]]
+        c['executed'] = rng.choice(pool) if (pool and rng.random() < 0.65) else None
+        c['regex'] = ('f_%s_' % fname) if rng.random() < 0.3 else None
+        shape = 'ret' if (len(phs) == 1 and rng.random() < 0.4) else 'gen'
+        items = []
+        own_prov = None
+        if shape == 'gen' and rng.random() < 0.35:
+            own_prov = made_prov[j]
+        avail = provs + ([own_prov] if own_prov else [])
+
+        def consumer(base, sub, p_calc):
+            k = len(items)
+            cd = []
+            if rng.random() < p_calc:
+                cd = rng.sample(avail, 1 if (len(avail) == 1 or rng.random() < 0.75) else 2)
+            td = [x for x in low if rng.random() < 0.25][:2]
+            if j > 0 and rng.random() < 0.15:
+                td.append(rng.choice(placeholders['d0']))
+            return dict(sub=sub, basename=base, task_dep=td, setup=[x for x in low if rng.random() < 0.1][:1],
+                        targets=['f_%s_%d' % (fname, k)] if rng.random() < 0.55 else [],
+                        file_dep=([rng.choice(low_targets)] if (low_targets and rng.random() < 0.2) else []) +
+                                 ([rng.choice([t for it in items for t in it['targets']])] if (any(it['targets'] for it in items) and rng.random() < 0.2) else []),
+                        beh=gen_beh(rng, calm), calc_dep=cd)
+        if shape == 'ret':
+            # ONE dict: the created task has the name of the placeholder (default basename, or the entry of `creates`)
+            items.append(consumer(phs[0] if c['creates'] else None, None, 0.9))
+        else:
+            if own_prov:
+                items.append(dict(sub=None, basename=own_prov, task_dep=[x for x in low if rng.random() < 0.2][:1], setup=[], targets=[], file_dep=[],
+                                  beh=gen_beh(rng, calm or rng.random() < 0.5), calc_dep=[], values=gen_values(own_prov, provs)))
+            extra = None
+            if rng.random() < 0.4:
+                extra = 'x%d_0' % j
+                items.append(consumer(extra, None, 0.6))
+            for p in phs:
+                if rng.random() < 0.5:
+                    it = consumer(p, None, 0.8)
+                    if extra and rng.random() < 0.6:
+                        it['task_dep'].append(extra)
+                    items.append(it)
+                else:
+                    for sub in ['0', '1'][:rng.choice([1, 2, 2])]:
+                        it = consumer(p, sub, 0.65)
+                        if extra and rng.random() < 0.3:
+                            it['task_dep'].append(extra)
+                        items.append(it)
+            if rng.random() < 0.3:
+                rng.shuffle(items)
+        if rng.random() < 0.03 and items:     # common target with a static task -> InvalidTask at creation time
+            items[-1]['targets'] = ['f_%s' % snames[-1]]
+        c['shape'] = shape; c['items'] = items
+        c['ph_beh'] = {p: dict(DEFAULT_BEH, check=rng.choice(['run', 'run', 'run', 'utd'])) for p in phs}
+    # selection: only words that exist once the creators ran
+    subs, tgts = [], []
+    for c in creators:
+        for it in c['items']:
+            base = it['basename'] or c['fname']
+            if it['sub'] is not None and base in placeholders[c['fname']]:
+                subs.append('%s:%s' % (base, it['sub']))
+            tgts += [t for t in it['targets'] if t.startswith('f_%s_' % c['fname'])]
+    r = rng.random()
+    auto = rng.random() < 0.2
+    if r < 0.22:
+        sel = None
+    elif r < 0.5:
+        sel = [rng.choice(all_ph)]
+    elif r < 0.65 and subs:
+        sel = [rng.choice(subs)]
+    elif r < 0.75 and shared:
+        sel = ['s0']
+    elif r < 0.88 and tgts:
+        sel = [rng.choice(tgts)]
+        cr = [c for c in creators if sel[0].startswith('f_%s_' % c['fname'])][0]
+        auto = auto or cr['regex'] is None
+    else:
+        sel = [rng.choice(all_ph + subs + snames + provs + tgts) for _ in range(rng.choice([2, 2, 3]))]
+        auto = auto or any(w in tgts for w in sel)
+    return dict(statics=statics, creators=creators, sel=sel, auto=auto, cont=rng.random() < 0.5, always=rng.random() < 0.12,
+                kind='calc', twin=True)
+
+
+def gen_subrx(rng):
+    """sub-tasks of a delayed task selected BY NAME (`d0:1`: _filter_tasks makes a placeholder sharing d0's loader object)
+    together with words resolved through target_regex / --auto-delayed-regex (targets of created tasks, targets nobody
+    produces), in both orders -- the input family of the repaired defect `subtask-placeholder-regex` (/repo 01f48fb).
+    Every sub-task word exists once the creator ran and every placeholder name is yielded (case['twin'] = True)"""
+    calm = rng.random() < 0.8
+    ns = rng.choice([1, 2, 2])
+    snames = ['s%d' % i for i in range(ns)]
+    statics = []
+    for i, nm in enumerate(snames):
+        later = snames[i + 1:]
+        statics.append(dict(name=nm, task_dep=[x for x in later if rng.random() < 0.4], setup=[], file_dep=[],
+                            targets=['f_%s' % nm] if rng.random() < 0.5 else [], beh=gen_beh(rng, calm)))
+    nd = rng.choice([1, 1, 2])
+    creators = []
+    for j in range(nd):
+        fname = 'd%d' % j
+        r = rng.random()
+        creates = None if r < 0.65 else (['c%da' % j] if r < 0.85 else ['c%da' % j, 'c%db' % j])
+        c = dict(fname=fname, cid=j, creates=creates)
+        phs = creates or [fname]
+        c['executed'] = rng.choice(snames) if rng.random() < 0.4 else None
+        c['regex'] = ('f_%s_' % fname) if rng.random() < 0.4 else None
+        items = []
+        for p in phs:
+            for sub in ['0', '1', '2'][:rng.choice([2, 2, 3])]:
+                k = len(items)
+                items.append(dict(sub=sub, basename=p, task_dep=[x for x in snames if rng.random() < 0.15][:1], setup=[],
+                                  targets=['f_%s_%d' % (fname, k)] if rng.random() < 0.85 else [],
+                                  file_dep=(['f_%s_%d' % (fname, rng.randrange(0, k))] if (k and rng.random() < 0.15 and items[0]['targets']) else []),
+                                  beh=gen_beh(rng, calm)))
+        for it in items:      # a file_dep must be a target that exists
+            made = [t for x in items for t in x['targets']]
+            it['file_dep'] = [f for f in it['file_dep'] if f in made and f not in it['targets']]
+        c['shape'] = 'gen'; c['items'] = items
+        c['ph_beh'] = {p: dict(DEFAULT_BEH, check=rng.choice(['run', 'run', 'run', 'utd'])) for p in phs}
+        creators.append(c)
+    subs = [item_name(c, it) for c in creators for it in c['items']]
+    tgts = [t for c in creators for it in c['items'] for t in it['targets']]
+    missing = ['f_%s_9' % c['fname'] for c in creators] + ['nope']
+    nsub = rng.choice([1, 1, 2])
+    words = rng.sample(subs, min(nsub, len(subs)))
+    r = rng.random()
+    if r < 0.55 and tgts:
+        words += rng.sample(tgts, min(len(tgts), rng.choice([1, 1, 2])))
+    elif r < 0.85:
+        words.append(rng.choice(missing))
+    else:
+        words += [rng.choice(tgts + missing), rng.choice(snames + [c['fname'] for c in creators if not c['creates']] + missing)]
+    if rng.random() < 0.35:
+        rng.shuffle(words)          # default: the sub-task word(s) first (the order that hit the defect)
+    auto = rng.random() < 0.7
+    return dict(statics=statics, creators=creators, sel=words, auto=auto, cont=rng.random() < 0.5, always=rng.random() < 0.1,
+                kind='subrx', twin=True)
+
+
 # ------------------------------------------------------------------------------------------ namespace
 class Ids:
     def __init__(self):
@@ -303,9 +550,15 @@ def item_dict(it, log, nid, gate):
             return False
         if o == 'error':
             raise RuntimeError('action error')
+        if it.get('values'):           # a calc_dep provider: the returned dict becomes task.values
+            return {k: list(v) for k, v in it['values'].items()}
         return True
     d = {'actions': [act], 'task_dep': list(it['task_dep']), 'setup': list(it.get('setup', [])),
          'file_dep': list(it['file_dep']), 'targets': list(it['targets']), 'meta': {'beh': dict(beh)}}
+    if it.get('calc_dep'):
+        d['calc_dep'] = list(it['calc_dep'])
+    if it.get('values'):
+        d['meta']['values'] = {k: list(v) for k, v in it['values'].items()}
     if beh['teardown']:
         d['teardown'] = [lambda: None]
     if it.get('sub') is not None:
@@ -315,8 +568,9 @@ def item_dict(it, log, nid, gate):
     return d
 
 
-def build_ns(case, log, nid, quiet=False, gate=None):
-    """namespace of task-creators.  quiet=True: the silent twin (no log entries)"""
+def build_ns(case, log, nid, quiet=False, gate=None, static=False):
+    """namespace of task-creators.  quiet=True: the silent twin (no log entries).  static=True: the same creators
+    WITHOUT create_after (the identically defined static task set; default basename = name of the creator)"""
     from doit import create_after
     ns = {}
     lg = [] if quiet else log
@@ -336,7 +590,8 @@ def build_ns(case, log, nid, quiet=False, gate=None):
                 for it in c['items']:
                     yield item_dict(it, lg, nid, gate)
         cr._c15_cid = c['cid']
-        cr = create_after(executed=c['executed'], target_regex=c['regex'], creates=c['creates'])(cr)
+        if not static:
+            cr = create_after(executed=c['executed'], target_regex=c['regex'], creates=c['creates'])(cr)
         ns['task_' + c['fname']] = cr
     return ns
 
@@ -375,8 +630,8 @@ def beh_of(task, ph):
 
 
 class FakeDep:
-    def __init__(self, ph, log, nid):
-        self.ph, self.log, self.nid = ph, log, nid
+    def __init__(self, ph, log, nid, tasks=None):
+        self.ph, self.log, self.nid, self.tasks = ph, log, nid, tasks
 
     def status_is_ignore(self, task):
         return '1' if beh_of(task, self.ph)['dbignore'] else None
@@ -385,7 +640,11 @@ class FakeDep:
         task.dep_changed = []
         return Status({'run': 'run', 'utd': 'up-to-date', 'err': 'error'}[beh_of(task, self.ph)['check']])
 
-    def get_values(self, name): return {}
+    def get_values(self, name):
+        # saved values of an up-to-date task (runner.py 156): what its action returns (calc_dep providers)
+        t = (self.tasks or {}).get(name)
+        v = (t.meta or {}).get('values') if t is not None else None
+        return {k: list(x) for k, x in v.items()} if v else {}
     def get_value(self, task_id, key): raise Exception('no value')
     def save_success(self, task, result_hash=None): self.log.append([7, self.nid(task.name)])
     def remove_success(self, task): self.log.append([8, self.nid(task.name)])
@@ -401,14 +660,20 @@ def b(x):
     return 'true' if x else 'false'
 
 
-def coq_dtask(task, ph, nid, loader_name):
+def coq_dtask(task, ph, nid, loader_name, targets0=None):
+    """targets0: the targets dict TaskControl.__init__ left (producers of the file_dep a calc_dep provider returns; the
+    generated providers only name targets of static tasks, so the producer does not depend on when it is looked up)"""
     beh = beh_of(task, ph)
     ld = 'None'
     if task.loader:
         ld = 'Some %d' % nid(loader_name[id(task.loader)])
-    return ('{| dt := Build_task %s %s %s %s %s %s false %s [] [] []; dt_file_dep := %s; dt_targets := %s; dt_loader := %s |}' % (
-        nl([nid(x) for x in task.task_dep]), nl([nid(x) for x in task.setup_tasks]), nl([nid(x) for x in task.calc_dep]),
+    vals = (task.meta or {}).get('values') or {}
+    return ('{| dt := Build_task %s %s %s %s %s %s false %s %s %s %s; dt_file_dep := %s; dt_targets := %s; dt_loader := %s |}' % (
+        nl([nid(x) for x in task.task_dep]), nl([nid(x) for x in task.setup_tasks]), nl([nid(x) for x in sorted(task.calc_dep, key=_slot)]),
         b(beh['teardown'] and bool(task.teardown)), b(beh['dbignore']), CHECK[beh['check']], OUTC[beh['outcome'] if task.actions else 'ok'],
+        nl([nid(x) for x in vals.get('task_dep', [])]),
+        nl([nid((targets0 or {})[f]) for f in vals.get('file_dep', []) if f in (targets0 or {})]),
+        nl([nid(x) for x in vals.get('calc_dep', [])]),
         nl([nid(x) for x in task.file_dep]), nl([nid(x) for x in task.targets]), ld))
 
 
@@ -441,9 +706,11 @@ def render(case, snap, wake, nid, sfx, script=None):
         arms.append((f, match1(per, '0', 'k')))
     defs.append('Definition rn%s (f k : name) : name := %s.' % (sfx, match1(arms, '0', 'f')))
     selc = 'None' if sel is None else '(Some %s)' % nl([nid(w) for w in sel])
-    fmt = '%s ' + MODEL_VARIANT + ' cr%s wk%s (fun x => 50 + x) %s %s bo%s ix%s rm%s rn%s %s FUEL (loaded tb%s ld%s tg%s) %s %s'
+    # iteration order of the calc_dep sets: ascending hash slot of the provider names (see provider_names)
+    defs.append('Definition ck%s (x : name) : N := %s.' % (sfx, match1([(k, r) for k, r in snap.get('calc_rank', [])], '50 + x', 'x')))
+    fmt = '%s ' + MODEL_VARIANT + ' ' + MODEL_SELVER + ' cr%s wk%s ck%s %s %s bo%s ix%s rm%s rn%s %s FUEL (loaded tb%s ld%s tg%s) %s %s'
     expr = fmt % ('run_cmd' if script is None else 'run_script_cmd',
-                  sfx, sfx, b(case['cont']), b(case['always']), sfx, sfx, sfx, sfx, b(case['auto']), sfx, sfx, sfx,
+                  sfx, sfx, sfx, b(case['cont']), b(case['always']), sfx, sfx, sfx, sfx, b(case['auto']), sfx, sfx, sfx,
                   nl(snap['order']), selc)
     expr += ('' if script is None else ' ' + script) + ' %d%%nat' % (len(nid.m) + 2)
     return '\n'.join(defs), expr
@@ -527,7 +794,8 @@ def run_impl(case, flavour='serial', par=None):
     if couts is None:
         return dict(skip='creator-invalid')
     snap = dict(order=[nid(k) for k in initial])
-    snap['tab'] = [(nid(k), coq_dtask(t, ph, nid, loader_name)) for k, t in tc.tasks.items()]
+    targets0 = dict(tc.targets)
+    snap['tab'] = [(nid(k), coq_dtask(t, ph, nid, loader_name, targets0)) for k, t in tc.tasks.items()]
     snap['ld'] = []
     cid_of = {}
     for t in task_list:
@@ -540,7 +808,7 @@ def run_impl(case, flavour='serial', par=None):
     snap['tg'] = [(nid(f), nid(k)) for f, k in tc.targets.items()]
     snap['creators'] = {}
     for cid, per in couts.items():
-        snap['creators'][cid] = [(nid(t), '[' + '; '.join('(%d, %s)' % (nid(x.name), coq_dtask(x, ph, nid, loader_name)) for x in new) + ']')
+        snap['creators'][cid] = [(nid(t), '[' + '; '.join('(%d, %s)' % (nid(x.name), coq_dtask(x, ph, nid, loader_name, targets0)) for x in new) + ']')
                                  for t, new in per]
     snap['base_of'] = [(nid(w), nid(w.split(':', 1)[0])) for w in dict.fromkeys(sel)]
     cands = list(dict.fromkeys([t.name for t in task_list if t.loader] + sel))
@@ -558,6 +826,10 @@ def run_impl(case, flavour='serial', par=None):
         if t.loader and t.loader.target_regex:
             snap['rmatch'][nid(t.name)] = [(nid(w), bool(re.match(t.loader.target_regex, w))) for w in dict.fromkeys(sel)]
     init_loader = {t.name: bool(t.loader) for t in task_list}
+    provs = [s_['name'] for s_ in case['statics'] if s_.get('values')] + [it['basename'] for c in case['creators'] for it in c['items'] if it.get('values')]
+    if provs and not set_order_ok(provs):
+        return dict(skip='calc-set-order')
+    snap['calc_rank'] = [(nid(k), _slot(k)) for k in provs]
     # ---- seam: generate_tasks as called by _add_task (which creator, through which loader object, for which name)
     orig_gt = C.generate_tasks
     creates_of = {c['cid']: (c['creates'] or [c['fname']]) for c in case['creators']}
@@ -592,7 +864,7 @@ def run_impl(case, flavour='serial', par=None):
             log.append([40])
             rc = 3
         if rc is None:
-            dep = FakeDep(ph, log, nid)
+            dep = FakeDep(ph, log, nid, tc.tasks)
             rep = Reporter(log, nid)
             disp = tc.task_dispatcher()
             if flavour == 'serial':
@@ -739,13 +1011,15 @@ def oracle(case, res, out, flavour, par=None):
     # O3 created (and static) tasks: executed at most once, after their task_deps
     deps = {}
     for s in case['statics']:
-        deps[s['name']] = s['task_dep'] + s['setup']
+        deps[s['name']] = s['task_dep'] + s['setup'] + s.get('calc_dep', [])
     for c in case['creators']:
         for it in c['items']:
             if it['basename'] and it['sub'] is None:
-                deps[it['basename']] = it['task_dep'] + it['setup']
+                deps[it['basename']] = it['task_dep'] + it['setup'] + it.get('calc_dep', [])
             elif it['basename']:
-                deps['%s:%s' % (it['basename'], it['sub'])] = it['task_dep'] + it['setup']
+                deps['%s:%s' % (it['basename'], it['sub'])] = it['task_dep'] + it['setup'] + it.get('calc_dep', [])
+            elif case.get('twin'):      # default basename = name of the creator (kind calc: no `creates` without explicit basenames)
+                deps[c['fname'] if it['sub'] is None else '%s:%s' % (c['fname'], it['sub'])] = it['task_dep'] + it['setup'] + it.get('calc_dep', [])
     runs = {}
     for i, e in enumerate(ev):
         if e[0] == 51:
@@ -826,7 +1100,184 @@ def oracle(case, res, out, flavour, par=None):
             if prod is not None and not any(e[0] in FINAL and e[1] == nid(prod) for e in ev):
                 viol.append(dict(what='target %s (one of the words %s): its producer %s was never processed (exit status 0)' % (w, sel, prod),
                                  shape='regex-target-producer-not-run', case=small))
+    # R1/R2 (repaired defect 01f48fb, shape subtask-placeholder-regex): a placeholder made for a `basename:sub` word shares the
+    #    loader of the task `basename`; taken for a task-creator by the target_regex / --auto-delayed-regex loop it overwrote
+    #    loader.basename: the creator was evaluated with a `basename:sub` name (tasks basename:sub:x) and, the placeholder being a
+    #    member of the RegexGroup, `regex_group.tasks.remove` raised KeyError.  Judged on every run of every kind
+    by_name = [w for w in dict.fromkeys(sel) if ':' in w and w not in init_tasks and w not in init_targets and res['has_loader'].get(w.split(':', 1)[0])]
+    rx_words = [w for w in dict.fromkeys(sel) if w not in init_tasks and w not in init_targets and w.split(':', 1)[0] not in init_tasks]
+    cmd = 'doit run %s%s' % ('--auto-delayed-regex ' if case['auto'] else '', ' '.join(sel))
+    if any(e[0] == 16 for e in ev):
+        viol.append(dict(what='`%s`: KeyError escaped run_all (%s) instead of a result / the invalid-parameter error' % (cmd, res.get('crash')),
+                         shape='subtask-placeholder-regex' if (by_name and rx_words) else 'keyerror-escaped', case=small))
+    for e in ev:
+        if e[0] == 14 and ':' in inv.get(e[3], ''):
+            viol.append(dict(what='`%s`: creator evaluated through generate_tasks(%r, ...): a sub-task name used as the basename of the created tasks' % (
+                cmd, inv.get(e[3])), shape='subtask-placeholder-regex' if (by_name and rx_words) else 'creator-evaluated-for-subtask-name', case=small))
+    # O7 the created tasks behave like the identically defined static tasks (kinds calc, subrx)
+    if case.get('twin'):
+        viol += twin_oracle(case, res, out, small)
     out.violations += viol
+    return viol
+
+
+# ------------------------------------------------------------------------------------------ static twin
+def item_name(c, it):
+    base = it['basename'] or c['fname']
+    return base if it['sub'] is None else '%s:%s' % (base, it['sub'])
+
+
+def run_twin(case, initial):
+    """the identically defined STATIC task set: the same creator bodies without create_after (so every task exists when
+    TaskControl is built), every task of a creator with `executed=e` having e as an additional task_dep (what
+    Task.__init__ does for the placeholder); same selection (None = the names the delayed namespace starts with, in that
+    order), same flags, serial Runner, same fake dependency manager.  Returns events + the task objects after the run"""
+    import doit.control as C
+    import doit.runner as R
+    from doit.loader import load_tasks
+    from doit.exceptions import InvalidTask, InvalidDodoFile, InvalidCommand
+    nid = Ids(); log = []
+    try:
+        ns = build_ns(case, log, nid, static=True)
+        task_list = load_tasks(ns, allow_delayed=True)
+        by_name = {t.name: t for t in task_list}
+        for c in case['creators']:
+            if not c['executed']:
+                continue
+            mine = set(item_name(c, it) for it in c['items']) | set(item_name(c, it).split(':')[0] for it in c['items'])
+            for nm in mine:
+                t = by_name.get(nm)
+                if t is not None and c['executed'] not in t.task_dep and c['executed'] != nm:
+                    t.task_dep.append(c['executed'])
+        tc = C.TaskControl(task_list)
+    except (InvalidTask, InvalidDodoFile) as e:
+        return dict(skip='twin-load-error: %s' % str(e)[:80])
+    ph = {}
+    for c in case['creators']:
+        ph.update(c['ph_beh'])
+    sel = case['sel'] if case['sel'] is not None else [k for k in initial if k in tc.tasks]
+    saved = (sys.stdout, sys.stderr)
+    rc = None
+    try:
+        try:
+            tc.process(list(sel))
+        except InvalidCommand as e:
+            return dict(skip='twin-selection-error: %s' % str(e)[:80])
+        runner = R.Runner(FakeDep(ph, log, nid, tc.tasks), Reporter(log, nid), continue_=case['cont'], always_execute=case['always'])
+        try:
+            rc = runner.run_all(tc.task_dispatcher())
+        except BaseException as e:  # noqa
+            return dict(skip='twin-run-error: %r' % e)
+    finally:
+        sys.stdout, sys.stderr = saved
+    inv = {v: k for k, v in nid.m.items()}
+    return dict(rc=rc, events=[[e[0]] + [inv.get(e[1], '?')] + list(e[2:]) for e in log if len(e) > 1], tasks=tc.tasks)
+
+
+def reports_by_name(events):
+    """name -> sorted list of (code[, kind]) of the reporter events execute/skip/failure/success"""
+    rep = {}
+    for e in events:
+        if e[0] in (2, 3, 4, 5, 6) and not str(e[1]).startswith('_regex_target'):
+            rep.setdefault(e[1], []).append(tuple(x for i, x in enumerate(e) if i != 1))
+    return {k: sorted(v) for k, v in rep.items()}
+
+
+def all_calm(case):
+    behs = [s['beh'] for s in case['statics']] + [it['beh'] for c in case['creators'] for it in c['items']] + \
+           [bh for c in case['creators'] for bh in c['ph_beh'].values()]
+    return all(bh['outcome'] == 'ok' and bh['check'] != 'err' and not bh['dbignore'] for bh in behs)
+
+
+def twin_oracle(case, res, out, small):
+    """differential oracle: delayed run vs the static twin (run_twin).  T1 a task is not selected (get_status) before every
+    calc_dep it declares had its final report; T2 (both runs exit 0) the same tasks are reported, with the same reports
+    -- the delayed run may additionally process the `executed` triggers of creators reached through target_regex
+    placeholders and what those depend on; T3 (both exit 0) every task that exists in both has the same task_dep / calc_dep /
+    file_dep in the end (values computed by its calc_dep tasks merged), and is selected only after all of them; T4 failure-
+    free behaviours: same exit status"""
+    viol = []
+    nid = res['nid']; inv = {v: k for k, v in nid.m.items()}
+    ev = [[e[0]] + [inv.get(e[1], '?')] + list(e[2:]) for e in res['events'] if len(e) > 1 and e[0] < 50]
+    first_sel = {}
+    finals = {}
+    for i, e in enumerate(ev):
+        if e[0] == 1:
+            first_sel.setdefault(e[1], i)
+        if e[0] in FINAL:
+            finals.setdefault(e[1], i)
+    declared = {}
+    for s in case['statics']:
+        declared[s['name']] = list(s.get('calc_dep', []))
+    for c in case['creators']:
+        for it in c['items']:
+            declared[item_name(c, it)] = list(it.get('calc_dep', []))
+    # T1
+    for y, p in first_sel.items():
+        for k in declared.get(y, []):
+            if finals.get(k, 10 ** 9) > p:
+                viol.append(dict(what='task %s (calc_dep=%s) was selected by the runner %s; as a statically defined task it waits for it' % (
+                                     y, declared[y], ('although its calc_dep task %s was never processed' if k not in finals else 'before its calc_dep task %s was processed') % k),
+                                 shape='calc-dep-not-before-created-task', case=small))
+    tw = run_twin(case, res['initial'])
+    if 'skip' in tw:
+        out.count('twin:' + tw['skip'][:40])
+        # T5 a word that is no task, sub-task or target of the static twin: the delayed run does not end with exit status 0
+        #    (exit status 1/2: a failure cut the run short before the word was resolved)
+        if tw['skip'].startswith('twin-selection-error') and res['rc'] == 0:
+            viol.append(dict(what='`doit run %s`: exit status %s, but with the same tasks defined statically the selection is rejected (%s)' % (
+                ' '.join(case['sel'] or []), res['rc'], tw['skip']), shape='unknown-target-accepted', case=small))
+        return viol
+    out.count('twin:compared rc=%s/%s' % (res['rc'], tw['rc']))
+    if all_calm(case) and res['rc'] != tw['rc'] and not any(e[0] == 40 for e in res['events']):
+        # ([40]: the selection itself was rejected -- a target of a created task is unknown without target_regex / --auto-delayed-regex)
+        viol.append(dict(what='failure-free behaviours: exit status %s, the identically defined static task set gives %s' % (res['rc'], tw['rc']),
+                         shape='created-tasks-differ-from-static-twin', case=small))
+    if res['rc'] != 0 or tw['rc'] != 0:
+        return viol
+    if any(e[0] == 2 for e in ev) or any(e[0] == 2 for e in tw['events']):
+        # "ignored" spreads along task_dep: the twin's extra task_dep on the trigger would spread it differently
+        out.count('twin:not compared (ignored tasks)')
+        return viol
+    # T2
+    mine, theirs = reports_by_name(ev), reports_by_name(tw['events'])
+    sel = case['sel'] or []
+    init_tasks = set(res['initial'])
+    extra_ok = set()
+    if any(w not in init_tasks and w.split(':', 1)[0] not in init_tasks for w in sel):
+        todo = [c['executed'] for c in case['creators'] if c['executed']]
+        while todo:
+            x = todo.pop()
+            if x in extra_ok or x not in tw['tasks']:
+                continue
+            extra_ok.add(x)
+            t = tw['tasks'][x]
+            todo += list(t.task_dep) + list(t.setup_tasks) + list(t.calc_dep)
+    for nm in sorted(set(mine) | set(theirs)):
+        if mine.get(nm) == theirs.get(nm) or (nm not in theirs and nm in extra_ok):
+            continue
+        viol.append(dict(what='task %s: reports %s, but %s when the same tasks are defined statically (event codes: 2 ignored, 3 up-to-date, '
+                              '4 failure, 5 executed, 6 success)' % (nm, mine.get(nm, 'nothing'), theirs.get(nm, 'nothing')),
+                         shape='created-tasks-differ-from-static-twin', case=small))
+    # T3
+    trig = set(c['executed'] for c in case['creators'] if c['executed'])
+    real = res['tc'].tasks
+    for nm, t in tw['tasks'].items():
+        r = real.get(nm)
+        if r is None or nm not in mine or nm not in theirs or r.loader:
+            continue
+        got = (set(r.task_dep) | trig, set(r.calc_dep), set(r.file_dep))
+        want = (set(t.task_dep) | trig, set(t.calc_dep), set(t.file_dep))
+        if got != want:
+            viol.append(dict(what='task %s ends with task_dep=%s calc_dep=%s file_dep=%s, the statically defined one with task_dep=%s calc_dep=%s '
+                                  'file_dep=%s (dependencies computed by calc_dep tasks not merged?)' % (
+                                      nm, sorted(r.task_dep), sorted(r.calc_dep), sorted(r.file_dep), sorted(t.task_dep), sorted(t.calc_dep), sorted(t.file_dep)),
+                             shape='created-task-deps-differ-from-static-twin', case=small))
+        if nm in first_sel:
+            for d in list(t.task_dep) + list(t.calc_dep):
+                if finals.get(d, 10 ** 9) > first_sel[nm]:
+                    viol.append(dict(what='task %s selected before %s was processed (a dependency of the statically defined task, declared or computed)' % (nm, d),
+                                     shape='created-task-before-static-twin-dep', case=small))
     return viol
 
 
@@ -865,6 +1316,12 @@ def strip_files(case):
     for cr in c['creators']:
         for it in cr['items']:
             it['file_dep'] = []; it['beh'] = dict(DEFAULT_BEH)
+    for x in c['statics'] + [it for cr in c['creators'] for it in cr['items']]:
+        if x.get('values'):
+            x['values'] = dict(x['values'], file_dep=[])
+            if not (x['values']['task_dep'] or x['values']['calc_dep']):
+                x['values'] = None
+    c['twin'] = False
     return c
 
 
@@ -951,12 +1408,250 @@ def e2e_family(ctx, out):
     return n
 
 
+# ------------------------------------------------------------------------------------------ end-to-end family: calc_dep
+E2E_CALC_DODO = """
+import os
+from doit import create_after
+HERE = os.path.dirname(os.path.abspath(__file__))
+LOG = os.path.join(HERE, 'log.txt')
+DOIT_CONFIG = {'verbosity': 0, 'backend': 'json'}
+
+def rec(msg):
+    with open(LOG, 'a') as fobj:
+        fobj.write(msg + '\\n')
+
+def find_deps():
+    rec('run:find_deps')
+    return {'file_dep': [os.path.join(HERE, 'extra.txt')], 'task_dep': ['helper']}
+
+def build(dependencies):
+    rec('run:T:deps=' + ','.join(sorted(os.path.basename(d) for d in dependencies)))
+
+def task_pre():
+    return {'actions': [(rec, ['run:pre'])]}
+
+def task_helper():
+    return {'actions': [(rec, ['run:helper'])]}
+
+def task_find_deps():
+    return {'actions': [find_deps]}
+
+def mk(**more):
+    return dict({'actions': [build], 'file_dep': [os.path.join(HERE, 'base.txt')], 'calc_dep': ['find_deps']}, **more)
+
+# statically defined
+def task_sbuild():
+    return mk()
+
+def task_sgrp():
+    for n in 'ab':
+        yield mk(name=n)
+
+def task_smaker():
+    yield mk(basename='smade')
+
+# the same definitions behind create_after
+@create_after(executed='pre')
+def task_build():
+    rec('EVAL')
+    return mk()
+
+@create_after(executed='pre')
+def task_grp():
+    rec('EVAL')
+    for n in 'ab':
+        yield mk(name=n)
+
+@create_after(executed='pre', creates=['made'])
+def task_maker():
+    rec('EVAL')
+    yield mk(basename='made')
+"""
+E2E_CALC_PAIRS = [('build', 'sbuild', 'creator returns one dict: task named like its creator'),
+                  ('grp:a', 'sgrp:a', 'sub-task selected by name'),
+                  ('made', 'smade', 'plain task named like the entry of creates')]
+E2E_RUNNERS = [[], ['-n', '2', '-P', 'thread'], ['-n', '2', '-P', 'process']]
+
+
+def e2e_calc_one(ctx, pair, rargs, tag):
+    """`doit run <delayed task>` vs `doit run <the statically defined twin>` (own DB file each), three invocations: first run,
+    nothing changed, the file named by the calc_dep task modified.  Returns (violations, logs)"""
+    import subprocess
+    delayed, static, what = pair
+    d = ctx.subdir('e2ecalc_%s' % tag)
+    with open(os.path.join(d, 'dodo.py'), 'w') as f:
+        f.write(E2E_CALC_DODO)
+    logs = {}
+    viol = []
+    case = dict(e2e=True, e2e_calc=True, pair=list(pair), runner=rargs)
+    for task in (static, delayed):
+        for fn in ('base.txt', 'extra.txt'):
+            with open(os.path.join(d, fn), 'w') as f:
+                f.write('v1 of ' + fn)
+        steps = []
+        for step in ('first run', 'nothing changed', 'computed file_dep modified'):
+            if step == 'computed file_dep modified':
+                with open(os.path.join(d, 'extra.txt'), 'w') as f:
+                    f.write('version two of extra.txt, longer')
+            if os.path.exists(os.path.join(d, 'log.txt')):
+                os.remove(os.path.join(d, 'log.txt'))
+            argv = ['run', '--db-file', os.path.join(d, 'db_' + task.replace(':', '_'))] + rargs + [task]
+            try:
+                p = subprocess.run([common.PY, '-m', 'doit', '-f', os.path.join(d, 'dodo.py')] + argv, cwd=d, env=common.impl_env(),
+                                   stdout=subprocess.PIPE, stderr=subprocess.PIPE, text=True, timeout=120)
+                rc, err = p.returncode, p.stderr
+            except subprocess.TimeoutExpired:
+                rc, err = 124, 'timeout'
+            lines = open(os.path.join(d, 'log.txt')).read().split() if os.path.exists(os.path.join(d, 'log.txt')) else []
+            steps.append((step, rc, lines, err))
+            cmd = '`doit %s`' % ' '.join(['run'] + rargs + [task])
+            if rc != 0:
+                viol.append(dict(what='%s (%s): exit status %s (stderr %s)' % (cmd, step, rc, err.strip().splitlines()[-1:]),
+                                 shape='e2e-exit-status', case=case))
+            if task == delayed:
+                if lines.count('EVAL') != 1:
+                    viol.append(dict(what='%s (%s): creator evaluated %d times (log %s)' % (cmd, step, lines.count('EVAL'), lines),
+                                     shape='creator-evaluated-twice' if lines.count('EVAL') > 1 else 'creator-not-evaluated', case=case))
+                elif 'run:pre' in lines and lines.index('EVAL') < lines.index('run:pre'):
+                    viol.append(dict(what='%s (%s): creator evaluated before pre' % (cmd, step), shape='creator-before-trigger', case=case))
+            t_pos = [i for i, l in enumerate(lines) if l.startswith('run:T')]
+            for need in ('run:find_deps', 'run:helper'):
+                if t_pos and (need not in lines or lines.index(need) > t_pos[0]):
+                    viol.append(dict(what='%s (%s, %s): the task ran %s (log %s)' % (
+                        cmd, what, step, ('although %s never ran' if need not in lines else 'before %s') % need[4:], lines),
+                        shape='calc-dep-not-before-created-task', case=case))
+        logs[task] = steps
+    norm = {t: [(st, rc, sorted(l for l in lines if l not in ('run:pre', 'EVAL'))) for st, rc, lines, _ in logs[t]] for t in logs}
+    for (st, rc_s, ls), (_, rc_d, ld) in zip(norm[static], norm[delayed]):
+        if (rc_s, ls) != (rc_d, ld):
+            viol.append(dict(what='`doit run %s %s` (%s; %s): exit status %s, executed %s -- the statically defined twin %s: exit status %s, executed %s' % (
+                ' '.join(rargs), delayed, what, st, rc_d, ld, static, rc_s, ls), shape='created-tasks-differ-from-static-twin', case=case))
+    want = [['run:T:deps=base.txt,extra.txt', 'run:find_deps', 'run:helper'], ['run:find_deps', 'run:helper'],
+            ['run:T:deps=base.txt,extra.txt', 'run:find_deps', 'run:helper']]
+    for (st, rc_s, ls), w in zip(norm[static], want):
+        if ls != w:     # the static baseline itself is not what the documentation of calc_dep says
+            viol.append(dict(what='`doit run %s %s` (statically defined, %s): executed %s, expected %s' % (' '.join(rargs), static, st, ls, w),
+                             shape='e2e-static-calc-dep-baseline', case=case))
+    return viol, norm
+
+
+def e2e_calc_family(ctx, out):
+    combos = [(pr, r) for pr in E2E_CALC_PAIRS for r in E2E_RUNNERS]
+    if ctx.quick:    # every pair once, the runner rotating
+        combos = [(pr, E2E_RUNNERS[i % 3]) for i, pr in enumerate(E2E_CALC_PAIRS)]
+    n = 0
+    for j, (pr, rargs) in enumerate(combos):
+        viol, _ = e2e_calc_one(ctx, pr, rargs, str(j))
+        out.violations += viol
+        out.count('e2e-calc:%s' % (' '.join(rargs[2:]) or 'serial'))
+        out.nontrivial.add(('e2e-calc', pr[0], tuple(rargs)))
+        n += 6
+    return n
+
+
+
+# ------------------------------------------------------------------------------------------ end-to-end: sub-task by name + regex target
+E2E_SUBRX_DODO = """
+import os
+from doit import create_after
+HERE = os.path.dirname(os.path.abspath(__file__))
+LOG = os.path.join(HERE, 'log.txt')
+DOIT_CONFIG = {'dep_file': os.path.join(HERE, 'db'), 'verbosity': 0, 'backend': 'json'}
+
+def rec(task):
+    with open(LOG, 'a') as fobj:
+        fobj.write('run:' + task.name + '\\n')
+    for t in task.targets:
+        with open(t, 'w') as fobj:
+            fobj.write('x')
+
+@create_after()
+def task_c():
+    yield {'name': '1', 'actions': [rec], 'targets': [os.path.join(HERE, 'one.txt')]}
+    yield {'name': '2', 'actions': [rec], 'targets': [os.path.join(HERE, 'two.txt')]}
+"""
+# (words, expected exit status, tasks that must have run, exactly)
+E2E_SUBRX_CMDS = [(['c:1', 'nothing.txt'], 3, ['c:1']), (['c:1', 'two.txt'], 0, ['c:1', 'c:2']),
+                  (['two.txt', 'c:1'], 0, ['c:1', 'c:2']), (['c:2', 'c:1', 'one.txt'], 0, ['c:1', 'c:2'])]
+
+
+def e2e_subrx_one(ctx, words, want_rc, want_run, rargs, tag):
+    """`doit run --auto-delayed-regex <sub-task by name> <target>` (the two commands of the repaired defect 01f48fb and two variations)"""
+    import subprocess
+    d = ctx.subdir('e2esubrx_%s' % tag)
+    for fn in ('log.txt', 'db', 'one.txt', 'two.txt'):
+        if os.path.exists(os.path.join(d, fn)):
+            os.remove(os.path.join(d, fn))
+    with open(os.path.join(d, 'dodo.py'), 'w') as f:
+        f.write(E2E_SUBRX_DODO)
+    argv = ['run', '--auto-delayed-regex'] + rargs + [os.path.join(d, w) if w.endswith('.txt') else w for w in words]
+    try:
+        p = subprocess.run([common.PY, '-m', 'doit', '-f', os.path.join(d, 'dodo.py')] + argv, cwd=d, env=common.impl_env(),
+                           stdout=subprocess.PIPE, stderr=subprocess.PIPE, text=True, timeout=120)
+        rc, err = p.returncode, p.stderr
+    except subprocess.TimeoutExpired:
+        rc, err = 124, 'timeout'
+    lines = sorted(l[4:] for l in (open(os.path.join(d, 'log.txt')).read().split() if os.path.exists(os.path.join(d, 'log.txt')) else []))
+    cmd = '`doit run --auto-delayed-regex %s`' % ' '.join(rargs + words)
+    case = dict(e2e=True, e2e_subrx=True, words=words, want_rc=want_rc, want_run=want_run, runner=rargs)
+    viol = []
+    if 'Traceback' in err or 'KeyError' in err:
+        viol.append(dict(what='%s: traceback (%s)' % (cmd, err.strip().splitlines()[-1:]), shape='subtask-placeholder-regex', case=case))
+    if rc != want_rc:
+        viol.append(dict(what='%s: exit status %s, expected %s%s' % (cmd, rc, want_rc, ' (invalid parameter error)' if want_rc == 3 else ''),
+                         shape='subtask-placeholder-regex', case=case))
+    # (thread runner: a python-action running in a worker replaces sys.stderr of the whole process meanwhile, the message of
+    #  the main thread can end up in that task's captured output: only judged when something was printed)
+    if want_rc == 3 and 'nothing.txt' not in err and (err.strip() or 'thread' not in rargs):
+        viol.append(dict(what='%s: the unknown target is not named in the error output (%s)' % (cmd, err.strip().splitlines()[-2:]),
+                         shape='subtask-placeholder-regex', case=case))
+    # with an unknown target the run may stop before the selected sub-task was executed (process runner)
+    if (lines != sorted(want_run)) if want_rc == 0 else (not set(lines) <= set(want_run) or len(set(lines)) != len(lines)):
+        viol.append(dict(what='%s: tasks executed %s, expected %s %s' % (cmd, lines, 'exactly' if want_rc == 0 else 'nothing but', sorted(want_run)),
+                         shape='subtask-placeholder-regex', case=case))
+    return viol, (rc, lines, err)
+
+
+def e2e_subrx_family(ctx, out):
+    n = 0
+    for i, (words, want_rc, want_run) in enumerate(E2E_SUBRX_CMDS):
+        for j, rargs in enumerate(E2E_RUNNERS):
+            if ctx.quick and i >= 2 and j != i % 3:
+                continue
+            viol, _ = e2e_subrx_one(ctx, words, want_rc, want_run, rargs, '%d_%d' % (i, j))
+            out.violations += viol
+            out.count('e2e-subrx:%s' % (' '.join(rargs[2:]) or 'serial'))
+            out.nontrivial.add(('e2e-subrx', tuple(words), tuple(rargs)))
+            n += 1
+    return n
+
+
 # ------------------------------------------------------------------------------------------ driver
 def prepare(res, case):
     res['targets0'] = set()
     for s in case['statics']:
         res['targets0'].update(s['targets'])
     res['has_loader'] = res['init_loader']
+
+
+def calc_stats(case, res, out, flavour):
+    """distribution only: which created calc_dep consumers were reached, and through what kind of node"""
+    if case.get('kind') != 'calc':
+        return
+    nid = res['nid']
+    selected = set(e[1] for e in res['events'] if e[0] == 1)
+    taken = set(p for c in case['creators'] for p in (c['creates'] or [c['fname']])) | set(w for w in (case['sel'] or []) if ':' in w)
+    for c in case['creators']:
+        for it in c['items']:
+            nm = item_name(c, it)
+            if it.get('calc_dep') and nid(nm) in selected:
+                how = 'takes over the node of its placeholder (reset_task)' if nm in taken else ('sub-task' if it['sub'] is not None else 'other name') + ' (new node)'
+                out.count('calc/%s: created task with calc_dep reached, %s' % (flavour, how))
+                if len(it['calc_dep']) > 1:
+                    out.count('calc/%s: created task with two calc_dep' % flavour)
+    for s in case['statics']:
+        if s.get('calc_dep') and nid(s['name']) in selected:
+            out.count('calc/%s: static task with calc_dep reached' % flavour)
 
 
 def prenodes(res):
@@ -1019,14 +1714,17 @@ def run(ctx):
                 '(none, task, placeholder, basename:sub existing or not, created target, target nobody produces, unknown word; 1-3 words) x '
                 '--auto-delayed-regex x --continue x --always; kind `multi`: one creator with 2-3 names in creates, all yielded (plain or '
                 'groups, with/without targets), a static task with several of them as task_dep (shared parent) and/or an executed= trigger, '
-                'optionally a second creator triggered by a created name.  Runners: serial Runner (trace compared with Delayed.run_cmd); '
+                'optionally a second creator triggered by a created name; kind `calc`: created tasks with calc_dep / task_dep / setup (taking over the '
+                'placeholder node: one dict, plain task named like the creator or an entry of creates, sub-task selected by name; sub-tasks; other '
+                'names), providers static or created, returning task_dep / file_dep on static targets / calc_dep, compared with the static twin; kind `subrx`: sub-tasks selected by name + words resolved by target_regex / --auto-delayed-regex '
+                '(existing targets, targets nobody produces), both orders, compared with the static twin.  Runners: serial Runner (trace compared with Delayed.run_cmd); '
                 'MThreadRunner with 2-3 workers under the deterministic scheduler of runlib (every call of the runner into the dispatcher '
                 'recorded as a script and compared with Delayed.run_script_cmd; all multi cases, every 4th other case); MThreadRunner with '
-                'real threads; `python -m doit run [-n 2 -P thread|process]` on a fixed dodo family.  non-trivial = distinct case in which a '
+                'real threads; `python -m doit run [-n 2 -P thread|process]` on three fixed dodo families (several names in creates; created tasks with calc_dep vs static twins; sub-task by name + regex-resolved target).  non-trivial = distinct case in which a '
                 'creator was evaluated or the selection/run ended with an error')
     rng = ctx.rng
-    n = ctx.n(240, 2700)
-    kinds = [None] * 5 + ['k3', 'creates', 'regex', 'auto', 'unknown'] + ['multi'] * 4
+    n = ctx.n(330, 3630)
+    kinds = [None] * 5 + ['k3', 'creates', 'regex', 'auto', 'unknown'] + ['multi'] * 4 + ['calc'] * 4 + ['subrx'] * 2
     cases, metas = [], []
     n_serial = 0
     n_thread = 0
@@ -1067,14 +1765,15 @@ def run(ctx):
         if ncreate or res['rc'] == 3:
             out.nontrivial.add((str(case['sel']), tuple(res['trace'])))
         oracle(case, res, out, 'serial')
+        calc_stats(case, res, out, 'serial')
         if len(out.samples) < 3 and ncreate and case['sel']:
             inv = {v: k for k, v in res['nid'].m.items()}
             out.samples.append(dict(selection=case['sel'], creators=[dict(fname=c['fname'], executed=c['executed'], creates=c['creates'],
                                                                           regex=c['regex']) for c in case['creators']],
                                     names=inv, observed=expected))
         # the same case on the thread runner under the deterministic scheduler: oracle + script compared with the model
-        if res['trace'][:1] != [40] and (case['kind'] == 'multi' or idx % 4 == 0):
-            for tag in range(2 if (case['kind'] == 'multi' or not ctx.quick) else 1):
+        if res['trace'][:1] != [40] and (case['kind'] in ('multi', 'calc', 'subrx') or idx % 4 == 0):
+            for tag in range(2 if (case['kind'] in ('multi', 'calc', 'subrx') or not ctx.quick) else 1):
                 par = dict(k=rng.choice([2, 2, 3]), sched=[rng.randrange(0, 60) for _ in range(40)])
                 res_p = run_parallel(ctx, case, out, idx, par, cases, metas, tag)
                 if res_p is not None:
@@ -1082,6 +1781,7 @@ def run(ctx):
                     out.count('dthread-k:%d' % par['k'])
                     if prenodes(res_p) >= 2:
                         out.count('dthread: >=2 placeholder nodes of one creator before its evaluation')
+                    calc_stats(case, res_p, out, 'dthread')
                     if sum(1 for e in res_p['events'] if e[0] == 14):
                         out.nontrivial.add((str(case['sel']), 'dthread', tuple(res_p['strace'])))
         # the same case on the thread runner (real threads): oracle only
@@ -1119,6 +1819,8 @@ def run(ctx):
                     out.violations.append(dict(what='DoitMain exit status %s but the runner-level run of the same namespace gave %s (%s)' % (
                         rc_m, res2['rc'], err_m[-200:]), shape='doitmain-exit-status', case=dict(sel=case['sel'], auto=case['auto'])))
     n_e2e = e2e_family(ctx, out)
+    n_e2e += e2e_calc_family(ctx, out)
+    n_e2e += e2e_subrx_family(ctx, out)
     out.evaluations = len(cases) + n_e2e
     out.extra['serial_runs_compared_with_model'] = n_serial
     out.extra['deterministic_thread_runs_compared_with_model'] = n_dthread
@@ -1135,6 +1837,10 @@ def run(ctx):
                        'Dependency (status_is_ignore/get_status/save_success) is an oracle per task object',
                        'string operations of _filter_tasks (split, startswith, re.match, placeholder names) are oracles given as tables',
                        'iteration order of ExecNode.waiting_me is recorded from the run (wake_rank)',
+                       'iteration order of calc_dep sets = ascending hash slot of the (at most 4) provider names, chosen with distinct slots (calc_rank); '
+                       'file_dep returned by a calc_dep provider only names targets of static tasks, so its producer (t_calc_new_impl) does not depend on when it is looked up',
+                       'reset_task is covered by the model (Delayed.nd_reset incl. the calc_dep lists; C15_reset_node_as_static); the static-twin oracle O7 is '
+                       'implementation-side only (the model has no second, static run to compare with)',
                        'parallel runners: the runner (MRunner.run_tasks/get_next_job: which result is consumed when, how many jobs are requested) is '
                        'NOT modelled; its calls into the dispatcher and its own select_task/process_task_result/finish calls are recorded as a '
                        'script, the model replays that script (Delayed.run_script) and must reproduce every yield, event and the exit status; '
@@ -1147,6 +1853,20 @@ def run(ctx):
 def replay(ctx, payload):
     """re-run the case of a replay file (written for a violation of the independent oracle) and judge it again"""
     case = payload.get('case') or {}
+    if case.get('e2e_calc'):
+        viol, norm = e2e_calc_one(ctx, tuple(case['pair']), list(case['runner']), 'replay')
+        for t, steps in norm.items():
+            for st, rc, lines in steps:
+                print('doit run %s %s  [%s]: exit status %s, executed %s' % (' '.join(case['runner']), t, st, rc, lines))
+        for v in viol:
+            print('VIOLATION-REPRODUCED shape=%s: %s' % (v['shape'], v['what']))
+        return 1 if viol else 0
+    if case.get('e2e_subrx'):
+        viol, (rc, lines, err) = e2e_subrx_one(ctx, list(case['words']), case['want_rc'], list(case['want_run']), list(case['runner']), 'replay')
+        print('doit run --auto-delayed-regex %s: exit status %s, executed %s\n%s' % (' '.join(case['runner'] + case['words']), rc, lines, err.strip()[-600:]))
+        for v in viol:
+            print('VIOLATION-REPRODUCED shape=%s: %s' % (v['shape'], v['what']))
+        return 1 if viol else 0
     if case.get('e2e') or 'creators' not in case:
         print(json.dumps(payload, indent=1, default=str))
         return 0
